@@ -17,7 +17,10 @@ def one(pid):
         else:
             vlib.build_model_driver(pid)
             d = m.DRIVER
-            vlib.build_driver(pid.lower() + "_driver", d["srcs"], sdk=d.get("sdk", False), variant=d.get("variant", "san"),
+            if hasattr(m, "build_driver"):
+                m.build_driver()
+            else:
+              vlib.build_driver(pid.lower() + "_driver", d["srcs"], sdk=d.get("sdk", False), variant=d.get("variant", "san"),
                               extra_flags=d.get("flags", ()), libs=d.get("libs", ("-lpthread",)))
         print("prebuilt", pid)
     except Exception as e:
